@@ -836,6 +836,9 @@ class MacroProgram(ElementProgram):
                         for fs in filtering:
                             fs.append(expression)
                         filtering.append([])
+
+                        # Dictionaries that follow override this one
+                        value.filters = filtering[-1]
                     elif name in self.boolean_attributes:
                         value = nodes.Boolean(
                             expr, name, default, self.default_marker)
